@@ -13,6 +13,13 @@ class Unsupported(Exception):
     pass
 
 
+OPTION_COMBINATORS = {
+    "std::option::Option::map", "std::option::Option::and_then", "std::option::Option::map_or",
+    "std::option::Option::map_or_else", "std::option::Option::inspect", "std::option::Option::filter",
+    "std::option::Option::is_some_and", "std::option::Option::unwrap_or_else", "std::option::Option::or_else",
+}
+
+
 UNKNOWN = None
 
 
@@ -67,17 +74,24 @@ class SlotInterp:
         # worklist of (bb, env(frozen), state, effects)
         start = (0, (), state, ())
         seen = set()
+        visits = {}
         work = [start]
         steps = 0
         while work:
             bbi, envt, st, eff = work.pop()
             steps += 1
-            if steps > 20000:
+            if steps > 40000:
                 raise Unsupported("step budget exceeded in %s" % body.nid)
             k = (bbi, envt, st, eff)
             if k in seen:
                 continue
             seen.add(k)
+            # loops: the effect trace grows per iteration; explore each (block, env, state) a
+            # bounded number of times (two iterations are enough to see repeat behaviour)
+            vk = (bbi, envt, st)
+            visits[vk] = visits.get(vk, 0) + 1
+            if visits[vk] > 3:
+                continue
             env = dict(envt)
             bb = body.blocks[bbi]
             for s in bb["stmts"]:
@@ -252,6 +266,47 @@ class SlotInterp:
             if path.endswith("is_none"):
                 v = not v
             return [(1 if v else 0, st, eff)]
+        if path in ("std::mem::replace", "std::mem::take", "core::mem::replace", "core::mem::take"):
+            for op in arg_paths[0] if arg_paths else []:
+                ci, rest = self.cell_of(op)
+                if ci is not None and not rest:
+                    old = st[ci]
+                    if path.endswith("take"):
+                        newv = False
+                    else:
+                        nv = self._operand_val(body, args[1], env, st, binding)
+                        if ci in self.bool_cells and isinstance(nv, int):
+                            newv = bool(nv)
+                        elif isinstance(nv, tuple) and nv[0] == "variant":
+                            newv = (nv[1] == 1)
+                        else:
+                            raise Unsupported("mem::replace of tracked slot with unknown value in %s" % body.nid)
+                    st2 = st[:ci] + (newv,) + st[ci + 1:]
+                    ret = (1 if old else 0) if ci in self.bool_cells else ("variant", 1 if old else 0)
+                    return [(ret, st2, eff)]
+            return [(UNKNOWN, st, eff)]
+        if path in OPTION_COMBINATORS and args:
+            # Option::map / and_then / ... : the closure runs iff the option is Some
+            pres = self._option_presence(body, args[0], env, st, binding)
+            outs = []
+            cl = None
+            for a in args[1:]:
+                cdef = ty_closure(a.get("t"))
+                if cdef and cdef in self.P.bodies:
+                    cl = self.P.bodies[cdef]
+            branches = [True, False] if pres is UNKNOWN else [bool(pres)]
+            for some in branches:
+                if some and cl is not None:
+                    nb = {"__slot__": binding.get("__slot__")}
+                    for o in self.run(cl, st, nb, depth + 1):
+                        rv = ("variant", 1) if path.endswith("::map") else UNKNOWN
+                        outs.append((rv, o.state, eff + o.effects))
+                elif some:
+                    outs.append((UNKNOWN, st, eff))
+                else:
+                    rv = ("variant", 0) if path.endswith(("::map", "::and_then", "::filter")) else UNKNOWN
+                    outs.append((rv, st, eff))
+            return outs
         if path in TRANSPARENT or path in LOCK_ACQ:
             # value flows through (variant tags survive clone / unwrap of a *local*)
             v = UNKNOWN
@@ -281,6 +336,11 @@ class SlotInterp:
         if cb is None and c.local and not c.indirect:
             bs = self.P.by_nid.get(c.path, [])
             cb = bs[0] if len(bs) == 1 else None
+        if cb is not None and not touches and binding.get("__slot__") is not None and depth < 6:
+            # a helper working on a value detached from the tracked object (e.g. the callable taken
+            # out of a FunctionWrapper slot): follow it so that an invocation inside is seen
+            outs = self.run(cb, st, {"__slot__": binding.get("__slot__")}, depth + 1)
+            return [(o.ret, o.state, eff + o.effects) for o in outs]
         if cb is not None and touches:
             # bind callee params to object paths
             nb = {}
